@@ -198,6 +198,24 @@ Section World.
   Qed.
 End World.
 
+(* the same objects handed to several constructions: every construction returns what a fresh
+   construction on the objects as the user made them returns, and the objects are left as they were *)
+Theorem session_fresh : forall A (f : die_input -> list Rect -> A) o steps,
+  session f o steps = map (fun b => f (o_desc o) (call_fixed o b)) steps.
+Proof.
+  intros A f o steps. revert o. induction steps as [|b rest IH]; intro o; cbn [session map]; [reflexivity|].
+  unfold after_call. rewrite IH. reflexivity.
+Qed.
+Theorem session_objects_unchanged : forall o steps, objects_after o steps = o.
+Proof.
+  intros o steps. unfold objects_after. revert o. induction steps as [|b rest IH]; intro o; cbn [fold_left]; [reflexivity|].
+  unfold after_call at 2. apply IH.
+Qed.
+(* in particular Die(d) followed by Die(d, netlist) on the same d: the second result is that of a first use *)
+Corollary session_second_use : forall A (f : die_input -> list Rect -> A) o b1 b2,
+  nth_error (session f o [b1; b2]) 1 = Some (f (o_desc o) (call_fixed o b2)).
+Proof. intros. rewrite session_fresh. reflexivity. Qed.
+
 (* the dispatch of a str: what each of the three readings needs *)
 Theorem read_order : forall file_of yaml_load s,
   match string_die s with
